@@ -32,8 +32,11 @@ package protocol
 
 // ---------------------------------------------------------------- callbacks (function-typed fields of Gateway)
 
+//@ define ctxTunnel(ctx) = dyn(ctxval(ctx, CtxTunnel), ptr(Tunnel))
+
+// a cookie check may rewrite the token fields of the tunnel found in its context, nothing else (C07)
 //@ functype protocol.CheckPAACookieFunc(ctx, cookie) (ok, err)
-//@   assigns #cookieOK, region(protocol.Tunnel.TargetServer), region(protocol.Tunnel.RemoteAddr), region(identity.User.userName)
+//@   assigns #cookieOK, region(protocol.Tunnel.TargetServer) at ctxTunnel(ctx), region(protocol.Tunnel.RemoteAddr) at ctxTunnel(ctx), region(identity.User.userName) at ctxTunnel(ctx).User
 //@   ensures #cookieOK == ok
 
 //@ functype protocol.CheckHostFunc(ctx, host) (ok, err)
@@ -57,7 +60,7 @@ package protocol
 //@ func (*Tunnel).Read
 //@   requires[C10] wf: t != nil && t.transportIn != nil
 //@   requires[C01] quiet: !#errSent && !#closeOK
-//@   assigns t.BytesReceived, t.LastSeen
+//@   assigns t.BytesReceived, t.LastSeen, #lastNow
 //@   nopanic[C10]
 
 // ---------------------------------------------------------------- packet builders and decoders
@@ -163,6 +166,8 @@ package protocol
 //@   requires[C10] wf: p != nil && p.gw != nil && p.tunnel != nil && p.tunnel.transportIn != nil && p.tunnel.transportOut != nil && p.tunnel.User != nil && dyn(p.tunnel.User, ptr(identity.User)) != nil
 //@   requires start: p.state == 0 && !#errSent && !#closeOK && !#hsOK && !#tcOK && !#taOK && !#ccOK && #dials == 0 && #fwd == 0 && #backend == nil
 //@   requires wiring: #cookieRequired == (p.gw.CheckPAACookie != nil) && #hostRequired == (p.gw.CheckHost != nil)
+//@   requires[C07] ownTunnel: ctxTunnel(ctx) == p.tunnel
+//@   loop 0 invariant[C07] isolation: sameExcept("protocol.Tunnel.rwc", p.tunnel) && sameExcept("protocol.Tunnel.TargetServer", p.tunnel) && sameExcept("protocol.Tunnel.RemoteAddr", p.tunnel) && sameExcept("protocol.Tunnel.BytesSent", p.tunnel) && sameExcept("protocol.Tunnel.BytesReceived", p.tunnel) && sameExcept("protocol.Tunnel.LastSeen", p.tunnel) && sameExcept("protocol.Gateway.IdleTimeout", p.gw) && sameExcept("identity.User.userName", p.tunnel.User)
 //@   loop 0 invariant[C01] phase: 0 <= p.state && p.state <= 5
 //@       && #hsOK == (p.state >= 1) && #tcOK == (p.state >= 2) && #taOK == (p.state >= 3) && #ccOK == (p.state >= 4)
 //@       && #dials == ite(p.state >= 4, 1, 0) && #fwd == #dials
@@ -171,8 +176,8 @@ package protocol
 //@       && (p.state >= 2 && #cookieRequired ==> #cookieOK)
 //@       && !#errSent && !#closeOK
 //@   assigns[C07] p.state, p.tunnel.rwc, p.tunnel.TargetServer, p.tunnel.BytesSent, p.tunnel.BytesReceived, p.tunnel.LastSeen, p.gw.IdleTimeout
-//@   assigns[C07] region(protocol.Tunnel.TargetServer), region(protocol.Tunnel.RemoteAddr), region(identity.User.userName)
-//@   assigns #errSent, #closeOK, #hsOK, #tcOK, #taOK, #ccOK, #cookieOK, #hostOK, #hostChecked, #reqServer, #reqPort, #dials, #dialAddr, #backend, #fwd, #lastType, #lastStatus, #relayed, #connWrite, #connWriteTo, #connWrites
+//@   assigns[C07] p.tunnel.RemoteAddr, region(identity.User.userName) at p.tunnel.User
+//@   assigns #errSent, #closeOK, #hsOK, #tcOK, #taOK, #ccOK, #cookieOK, #hostOK, #hostChecked, #reqServer, #reqPort, #dials, #dialAddr, #backend, #fwd, #lastType, #lastStatus, #relayed, #connWrite, #connWriteTo, #connWrites, #lastNow
 //@   ensures[C01] once: #dials <= 1 && #fwd <= 1
 //@   ensures[C01] errorEnds: #errSent ==> result != nil
 //@   ensures[C01] cleanEnd: result == nil ==> #closeOK
@@ -213,6 +218,7 @@ package protocol
 
 //@ func (*Gateway).handleWebsocketProtocol
 //@   requires[C10] wf: g != nil && c != nil && t != nil && t.User != nil && dyn(t.User, ptr(identity.User)) != nil && pkgReady()
+//@   requires[C07] ownTunnel: ctxTunnel(ctx) == t
 //@   requires start: freshHistory() && #cookieRequired == (g.CheckPAACookie != nil) && #hostRequired == (g.CheckHost != nil)
 //@   assigns *
 //@   requires[C07] keyed: tunnelCacheInv()
@@ -227,6 +233,7 @@ package protocol
 
 //@ func (*Gateway).handleLegacyProtocol
 //@   requires[C10] wf: g != nil && w != nil && r != nil && t != nil && t.User != nil && dyn(t.User, ptr(identity.User)) != nil && pkgReady() && hasIdentity(reqctx(r))
+//@   requires[C07] ownTunnel: ctxTunnel(reqctx(r)) == t
 //@   requires start: freshHistory() && #cookieRequired == (g.CheckPAACookie != nil) && #hostRequired == (g.CheckHost != nil)
 //@   requires[C07] keyed: tunnelCacheInv()
 //@   assigns *
